@@ -62,6 +62,9 @@ fn item(ctx: &Ctx, i: usize, rep: &mut Report) {
         }
         let mut fed = 0usize;
         while fed < n {
+            if fed & 0x3ff == 0 {
+                beat();
+            }
             if clone_at == Some(fed) && round == 0 {
                 s = s.clone(); // continue on a clone (also while the reservoir is still filling)
             }
